@@ -13,7 +13,7 @@ LEVEL = "exploration"
 TECHNIQUE = ("grammar-based generation of data-file addresses, values and data-table contents, exhaustive over all binary-file bit numbers and all "
              "(element, bit) pairs, against a reference PCCC target; oracle = PCCC fields vs a reference parse, table diff, read-back, RequestError for out-of-grammar addresses")
 RULE = ("address = N|B|F|L<file 1-255>:<elem 0-255>[/bit 0-15][{count}] | B<file>/<n 0-4095> | S:<elem>[/bit] | I|O:<slot>[.<word>][/bit] | "
-        "T|C<file>:<elem>.<ACC|PRE|EN|DN|TT|CU|CD|OV|UN|UA> (reads), upper/lower case, counts with size*count <= 236 bytes; values over the element "
+        "T|C<file>:<elem>.<ACC|PRE|EN|DN|TT|CU|CD|OV|UN|UA> (reads), upper/lower case, counts with size*count <= 255 bytes (the one-byte size field of a request); values over the element "
         "type's range; arbitrary prior table contents; out-of-grammar: unsupported letters, file 0/256+, element 256+ (incl. 4 digits), bit 16+ (incl. "
         "3 digits), B<f>/4096+; non-trivial = bit form, Bf/n form, {count} > 1, T/C sub-element or an out-of-range address; distinct = (operation, address, value)")
 LEVEL_TEXT = ("Each operation is executed by the real SLCDriver against the reference PCCC target: the command's file number / type / element / "
@@ -315,7 +315,8 @@ def ops(draw):
             a["bit"] = draw(st.integers(0, 15))
         if form == "count":
             es = 4 if ft in ("F", "L") else 2
-            a["count"] = draw(st.integers(2, min(236 // es, 256 - a["elem"])) if a["elem"] < 255 else st.just(1))
+            hi = min(255 // es, 256 - a["elem"])   # the byte-size field of a request is one byte
+            a["count"] = draw(st.one_of(st.integers(2, hi), st.integers(max(2, hi - 6), hi))) if hi >= 2 else 1
             if a["count"] == 1:
                 a["count"] = None
     c = {"op": op, "addr": a, "seed": draw(st.binary(min_size=3, max_size=9)), "fo_policy": draw(st.sampled_from(["std", "large"]))}
